@@ -104,7 +104,8 @@ theorem c02_genesis (g : Genesis) (h : g.wf = true) :
     `QUIET` lines): any well-formed genesis, any number of blocks in which x/slashing's BeginBlocker punishes nobody (votes may be absent
     as long as the downtime rule does not fire), no evidence arrives,
     and every transaction either leaves the state unchanged (all rejected transactions, bank sends) or is a
-    CreateValidator, a RemovePending, the admin's SetPower admitting a pending applicant, or the admin's SetPower of an
+    CreateValidator, a RemovePending, a valid UpdateStakingParams, the admin's SetPower admitting a pending applicant, or
+    the admin's SetPower of an
     existing validator that was not re-weighted earlier in the block (no D3) to a power at which it owns no index entry
     (no D1) — the index staying within `MaxValidators` (no D7) and the powers within CometBFT's maximum.  Then the run
     reaches its end — no block halts, CometBFT refuses no update list — and CometBFT's set equals the chain's own after
